@@ -39,7 +39,7 @@ func C20(c *ev.Ctx) {
 		runPipelineBehaviours(c, unpub, bs, multiStep, "e2e-trace-rejected")
 	}
 	createViewsAgree(c)
-	c.Cov.Rule = "TLC simulates fault-free behaviours of Pipeline.tla: 2 DIDs, <= 8 client submissions (create/update/recover/deactivate, also after a deactivate), every placement of flushes and observer steps, protocol upgrade at any point (operations are valid only under the version they were accepted by), with and without unpublished store; each behaviour runs on the real pipeline and after every step the real replies, queue, stores and ResolveDocument views must equal the specification's (reference state machine over stored + unpublished operations). Plus: create response vs long-form vs short-form views for every key type x version x store option. Non-trivial: >= 2 flushes or >= 2 DIDs."
+	c.Cov.Rule = "TLC simulates fault-free behaviours of Pipeline.tla: 2 DIDs, <= 8 client submissions (create/update/recover/deactivate, also after a deactivate), every placement of flushes and observer steps, protocol upgrade at any point (operations are valid only under the version they were accepted by), with and without unpublished store; each behaviour runs on the real pipeline (every other one through the real REST UpdateHandler / ResolveHandler with httptest) and after every step the real replies, queue, stores and ResolveDocument views must equal the specification's (reference state machine over stored + unpublished operations). Plus: create response vs long-form vs short-form views for every key type x version x store option. Non-trivial: >= 2 flushes or >= 2 DIDs."
 	c.Finish("model_checking")
 }
 
